@@ -118,6 +118,7 @@ pub fn run(args: &Args) {
             }
         }
     }
+    unicode_families(args, &mut rep);
     for gi in 0..n_grammars {
         if rep.elapsed() > args.max_s {
             rep.notes.insert("stopped_early_at_grammar".into(), json!(gi));
@@ -172,6 +173,64 @@ pub fn run(args: &Args) {
         }
     }
     rep.finish(args);
+}
+
+/// Two small families over ALL advertised Unicode property names (the random generator only knows a
+/// handful): the skipper's `(!NAME ~ ANY)*` shape in an atomic rule, and choices between a grouped
+/// category and names that merely look related to it. Inputs use real members of each property,
+/// including members outside the BMP.
+fn unicode_families(args: &Args, rep: &mut Report) {
+    let names: Vec<&str> = pest::unicode::unicode_property_names().collect();
+    let groups = ["LETTER", "CASED_LETTER", "MARK", "NUMBER", "PUNCTUATION", "SYMBOL", "SEPARATOR", "OTHER"];
+    let members = |name: &str| -> Vec<char> {
+        let Some(f) = pest::unicode::by_name(name) else { return vec![] };
+        let mut out = vec![];
+        if let Some(c) = (0u32..0x3000).filter_map(char::from_u32).find(|c| f(*c)) {
+            out.push(c);
+        }
+        if let Some(c) = (0x3000u32..0x10000).rev().filter_map(char::from_u32).find(|c| f(*c)) {
+            out.push(c);
+        }
+        if let Some(c) = (0x10000u32..0x110000).filter_map(char::from_u32).find(|c| f(*c)) {
+            out.push(c);
+        }
+        out
+    };
+    for (ni, name) in names.iter().enumerate() {
+        if ni as u64 % args.nshards != args.shard {
+            continue;
+        }
+        let ms = members(name);
+        if ms.is_empty() {
+            continue;
+        }
+        rep.count("unicode_family_names");
+        let mut grammars: Vec<String> = vec![
+            format!("r = @{{ (!{name} ~ ANY)* }}\n"),
+            format!("r = @{{ (!({name} | \"q\") ~ ANY)* ~ {name}? }}\n"),
+        ];
+        for g in groups {
+            if *name != g && (name.ends_with(&format!("_{g}")) || ni % 37 == 0) {
+                grammars.push(format!("r = {{ ({g} | {name})+ }}\n"));
+                grammars.push(format!("r = {{ ({name} | {g})+ }}\n"));
+                grammars.push(format!("r = @{{ (\"z\" | {g} | {name})* ~ \"!\" }}\n"));
+            }
+        }
+        let mut inputs: Vec<String> = vec!["xx".into(), "x!".into()];
+        for m in &ms {
+            inputs.push(format!("x{m}y"));
+            inputs.push(format!("{m}{m}!"));
+            inputs.push(format!("{m}x"));
+        }
+        for g in &grammars {
+            if let Ok((ast, _)) = read_grammar(g) {
+                rep.count("unicode_family_grammars");
+                for i in &inputs {
+                    check_grammar_case(rep, g, &ast, None, "r", i);
+                }
+            }
+        }
+    }
 }
 
 fn check_grammar_case(rep: &mut Report, text: &str, ast: &[Rule], _vm: Option<&pest_vm::Vm>, rule: &str, input: &str) {
